@@ -2,6 +2,7 @@
   C21 — tabulation counts are exact.  Theorems about `SPModel.Api.tabulate`.
 -/
 import SPModel.Api
+import SPProofs.Misc.Api
 
 namespace SPModel.C21
 open SPModel SPModel.Api
@@ -12,18 +13,31 @@ def rowAt (e : Exp) (names : List String) (t : Nat) : Option (List String) :=
     | .ok col => col[t]?
     | .error _ => none)
 
+theorem rowAt_eq_rowOf : rowAt = rowOf := rfl
+
 /-- the counting loop computes the number of selected trials showing the combination -/
 theorem frequency_eq (e : Exp) (names : List String) (trials : List Nat) (combo : List String)
     (hlen : combo.length = names.length)
     (hrows : ∀ t ∈ trials, (rowAt e names t).isSome) :
     frequency e names trials combo = .ok ((trials.filter (fun t => rowAt e names t == some combo)).length) := by
-  sorry
+  exact frequency_eq_filter e names trials combo hlen hrows
 
 /-- the table lists every combination of level names once, in product order, with that count -/
 theorem tabulate_eq (factors : List (String × List String)) (trials : List Nat) (e : Exp)
     (hne : trials ≠ []) (hrows : ∀ t ∈ trials, (rowAt e (factors.map (·.1)) t).isSome) :
     tabulate factors trials e = .ok ((product (factors.map (·.2))).map (fun combo =>
       (combo, (trials.filter (fun t => rowAt e (factors.map (·.1)) t == some combo)).length))) := by
-  sorry
+  unfold tabulate
+  apply mapM_except_ok
+  intro combo hc
+  have hlen : combo.length = (factors.map (·.1)).length := by
+    rw [length_of_mem_product _ combo hc]
+    simp
+  rw [frequency_eq e _ trials combo hlen hrows]
+  have : trials.isEmpty = false := by
+    cases trials with
+    | nil => contradiction
+    | cons _ _ => rfl
+  simp [this]
 
 end SPModel.C21
